@@ -58,6 +58,35 @@ theorem decode_ge4 (p s : List Nat) (hp : p <+: s) (h4 : 4 ≤ p.length) : decod
   match p, h4 with
   | a :: b :: c :: d :: r, _ => rfl
 
+/-- A successful decode consumed at least one and at most all of the bytes. -/
+theorem decode_ok_size (s : List Nat) (cp : Int) (n : Nat) (h : decodeUtf8 s = (cp, n)) (hc : cp ≠ DECODE_ERROR) :
+    1 ≤ n ∧ n ≤ s.length := by
+  match s with
+  | [] => simp [decodeUtf8] at h; exact absurd h.1.symm hc
+  | [a] =>
+    unfold decodeUtf8 at h; simp only at h
+    repeat' split at h
+    all_goals first
+      | exact absurd (Prod.mk.inj h).1.symm hc
+      | (have := (Prod.mk.inj h).2; simp; omega)
+  | [a, b] =>
+    unfold decodeUtf8 at h; simp only at h
+    repeat' split at h
+    all_goals first
+      | exact absurd (Prod.mk.inj h).1.symm hc
+      | (have := (Prod.mk.inj h).2; simp; omega)
+  | [a, b, c] =>
+    unfold decodeUtf8 at h; simp only at h
+    repeat' split at h
+    all_goals first
+      | exact absurd (Prod.mk.inj h).1.symm hc
+      | (have := (Prod.mk.inj h).2; simp; omega)
+  | a :: b :: c :: d :: rest =>
+    unfold decodeUtf8 at h; simp only at h
+    repeat' split at h
+    all_goals first
+      | exact absurd (Prod.mk.inj h).1.symm hc
+      | (have := (Prod.mk.inj h).2; simp; omega)
 /-- An ill-formed start stays ill-formed in every non-empty prefix. -/
 theorem decode_err_prefix (p s : List Nat) (hp : p <+: s) (h : (decodeUtf8 s).1 = DECODE_ERROR) :
     (decodeUtf8 p).1 = DECODE_ERROR := by
